@@ -27,7 +27,7 @@ XOf(e) ==
      bs |-> {Msg(j) @@ [n |-> j.n, via |-> j.via] : j \in Range(e.bs)},
      times |-> Len(e.bs),
      br |-> [status |-> e.br.status, hdr |-> Range(e.br.hdr), conn |-> Range(e.br.conn), nobody |-> e.br.nobody,
-             short |-> e.br.short, body |-> e.br.body],
+             short |-> e.br.short, declared |-> e.br.declared, body |-> e.br.body],
      cr |-> [status |-> e.cr.status, hdr |-> Range(e.cr.hdr), body |-> e.cr.body, framing |-> e.cr.framing,
              declared |-> e.cr.declared, got |-> e.cr.got, complete |-> e.cr.complete, after |-> e.cr.after]]
 
